@@ -354,11 +354,97 @@ fn check_in(dir: &Path, case: &Case, obs: &mut Obs) -> CaseResult {
     Ok(())
 }
 
+// ---- handover: the old and the new instance on the same path are alive at the same time ---------------------------
+
+/// A reloaded configuration builds a new appender for the same path while loggers in flight still hold the old
+/// one: both write for a while. `before` through the old one alone, then `mixed` (true = old instance).
+#[derive(Serialize, Deserialize, Debug, Clone)]
+pub struct Handover {
+    pub pre_existing: usize,
+    pub before: Vec<usize>,
+    pub mixed: Vec<(bool, usize)>,
+    pub chunks: Option<Vec<usize>>,
+}
+
+pub fn handover_strategy() -> impl Strategy<Value = Handover> {
+    (
+        prop_oneof![Just(0usize), 1usize..200, 1000usize..1100],
+        prop::collection::vec(len_strategy(), 0..=5),
+        prop::collection::vec((prop::bool::ANY, len_strategy()), 2..=12),
+        prop::option::weighted(0.3, prop::collection::vec(prop_oneof![1usize..8, 500usize..1100], 1..=3)),
+    )
+        .prop_map(|(pre_existing, before, mixed, chunks)| Handover { pre_existing, before, mixed, chunks })
+}
+
+pub fn check_handover(tmp: &Path, c: &Handover, obs: &mut Obs) -> CaseResult {
+    let dir = scratch(tmp, "c05h");
+    let r = check_handover_in(&dir, c, obs);
+    let _ = std::fs::remove_dir_all(&dir);
+    r
+}
+
+fn check_handover_in(dir: &Path, c: &Handover, obs: &mut Obs) -> CaseResult {
+    let path = dir.join("active.log");
+    let mut expected: Vec<u8> = vec![];
+    let mut s = 0;
+    while expected.len() < c.pre_existing {
+        expected.extend_from_slice(record_text(0xEEEE, s, 10).as_bytes());
+        s += 1;
+    }
+    if !expected.is_empty() {
+        std::fs::write(&path, &expected).unwrap();
+    }
+    let roller = RollSpec::Fixed { base: 0, count: 2, pattern: "arch.{}.log".into() };
+    let build = || build_appender(&path, true, &c.chunks, make_policy(dir, &TrigSpec::Size(1 << 40), &roller).unwrap()).map_err(|e| Failure { sig: "C05:build".into(), msg: e.to_string() });
+    let old = build()?;
+    let mut seq = 0u32;
+    let mut step = |app: &log4rs::append::rolling_file::RollingFileAppender, who: &str, len: usize, expected: &mut Vec<u8>, obs: &mut Obs| -> CaseResult {
+        let text = record_text(if who == "old" { 1 } else { 2 }, seq, len);
+        seq += 1;
+        match catch(|| append_msg(app, &text)) {
+            Err(p) => return fail("C05:panic", format!("append through the {} instance panicked: {}", who, p)),
+            Ok(Err(e)) => return fail("C05:append-error", format!("append through the {} instance failed: {}", who, e)),
+            Ok(Ok(())) => {}
+        }
+        expected.extend_from_slice(text.as_bytes());
+        obs.sub_evals += 1;
+        let got = std::fs::read(&path).unwrap_or_default();
+        ensure!(
+            got == *expected,
+            if parse_stream(&got).is_err() { "C05:split-record" } else { "C05:not-a-suffix" },
+            "old and new appender instance alive on one path: after an acknowledged append through the {} instance the file holds {} bytes, expected {} (every acknowledged record, whole, in order)", who, got.len(), expected.len()
+        );
+        Ok(())
+    };
+    for len in &c.before {
+        step(&old, "old", *len, &mut expected, obs)?;
+    }
+    let new = build()?;
+    let mut both = (false, false);
+    for (through_old, len) in &c.mixed {
+        if *through_old {
+            both.0 = true;
+            step(&old, "old", *len, &mut expected, obs)?;
+        } else {
+            both.1 = true;
+            step(&new, "new", *len, &mut expected, obs)?;
+        }
+    }
+    obs.nontrivial = both.0 && both.1;
+    obs.class_if(both.0 && both.1, "old-and-new-instance-both-write");
+    obs.class_if(c.pre_existing > 0, "pre-existing-content");
+    Ok(())
+}
+
 pub fn run(run: &Run) {
     let tmp = run.tmp.clone();
     let f = move |c: &Case, o: &mut Obs| check(&tmp, c, o);
     run.run_replays::<Case>("history", &f);
     run.search("history", run.tier.pick(800, 30_000), strategy(), &f);
+    let tmp2 = run.tmp.clone();
+    let g = move |c: &Handover, o: &mut Obs| check_handover(&tmp2, c, o);
+    run.run_replays::<Handover>("handover", &g);
+    run.search("handover", run.tier.pick(200, 10_000), handover_strategy(), &g);
     run.note(format!("build: {}", if cfg!(feature = "bg") { "background_rotation" } else { "foreground rotation" }));
 }
 
@@ -371,6 +457,13 @@ pub fn replay(part: &str, case: serde_json::Value) -> Option<CaseResult> {
             let _ = std::fs::remove_dir_all(&tmp);
             Some(r)
         }
+        "handover" => {
+            let tmp = std::env::temp_dir().join(format!("lv-replay-{}", std::process::id()));
+            std::fs::create_dir_all(&tmp).ok()?;
+            let r = check_handover(&tmp, &serde_json::from_value(case).ok()?, &mut Obs::default());
+            let _ = std::fs::remove_dir_all(&tmp);
+            Some(r)
+        }
         _ => None,
     }
 }
@@ -378,7 +471,7 @@ pub fn replay(part: &str, case: serde_json::Value) -> Option<CaseResult> {
 pub fn meta() -> EvidenceMeta {
     EvidenceMeta {
         level: "exploration",
-        rule: "cases = trigger (size with limit 0-4000, on-start-up, time driven through the guarded clock, user-defined scripted trigger with generated answers and pre/post-processing) x roller (delete; fixed window with base in {0,1,7,u32::MAX-count}, count 0-5, plain/.gz/.zst, index in file name or directory) x pattern or multi-chunk encoder x history of 1-40 operations: appends of self-delimiting records (payload 0-3 KiB incl. newlines and multi-byte text), restarts on the same path (append mode), clock advances, concurrent bursts of 2-5 threads; oracle after every operation: every retained file parses into whole uncorrupted records; archives oldest-to-newest then the active file yield a gap-free suffix of the acknowledged stream (bursts: per-thread suffixes in order, no duplicates, nothing invented, earlier records first); records disappear only when the retention window was full (or delete/count 0); append returns Err only for the scripted failures of a user-defined roller wrapped around the real one (file left in place; earlier acknowledged records must survive, also in truncate mode). non-trivial = >= 2 rotations and (a restart between them, or a record larger than the limit or 1 KiB, or a burst)".into(),
+        rule: "cases = trigger (size with limit 0-4000, on-start-up, time driven through the guarded clock, user-defined scripted trigger with generated answers and pre/post-processing) x roller (delete; fixed window with base in {0,1,7,u32::MAX-count}, count 0-5, plain/.gz/.zst, index in file name or directory) x pattern or multi-chunk encoder x history of 1-40 operations: appends of self-delimiting records (payload 0-3 KiB incl. newlines and multi-byte text), restarts on the same path (append mode), clock advances, concurrent bursts of 2-5 threads; oracle after every operation: every retained file parses into whole uncorrupted records; archives oldest-to-newest then the active file yield a gap-free suffix of the acknowledged stream (bursts: per-thread suffixes in order, no duplicates, nothing invented, earlier records first); records disappear only when the retention window was full (or delete/count 0); append returns Err only for the scripted failures of a user-defined roller wrapped around the real one (file left in place; earlier acknowledged records must survive, also in truncate mode). Part handover: an old and a new appender instance on the same path (what a reloaded configuration produces while loggers in flight still hold the old one) write alternately; after every acknowledged append the file is exactly all acknowledged records, whole and in order. non-trivial = >= 2 rotations and (a restart between them, or a record larger than the limit or 1 KiB, or a burst)".into(),
         assumptions: vec!["OS scheduler not controlled (bursts are real threads)".into(), "restarts in append mode only (statement's scope)".into()],
         mutants_caught: vec![],
     }
